@@ -49,7 +49,7 @@ def run_real(op, tl, par):
             msgs.append(ReactiveTest.on_error(t, ValueError("src")))
         else:
             msgs.append(ReactiveTest.on_completed(t))
-    cold = op in ("delay_subscription",)
+    cold = op in ("delay_subscription",) or bool(par.get("cold"))
     if cold:
         src = s.create_cold_observable(*[type(m)(m.time - SUB, m.value) for m in msgs])
     else:
@@ -167,7 +167,9 @@ def reference(op, tl, par):
     elif op in ("take_with_time", "take_until_with_time"):
         b = SUB + d
         for (t, k, v) in tl:
-            if t > b:
+            # a hot source's notification of the boundary instant was scheduled before the timer and comes first; a cold source
+            # schedules its notifications when it is subscribed - after the timer was set - so the timer comes first
+            if t > b or (par.get("cold") and t == b):
                 break
             out.append((t, k, v if k == "N" else None))
             if k != "N":
@@ -177,7 +179,7 @@ def reference(op, tl, par):
         b = SUB + d
         for (t, k, v) in tl:
             if k == "N":
-                if t > b:
+                if t > b or (par.get("cold") and t == b):
                     out.append((t, "N", v))
             else:
                 out.append((t, k, None))
@@ -230,9 +232,9 @@ def timelines():
 OPS = {
     "delay": [{"d": 10}, {"d": 25}], "delay_subscription": [{"d": 10}, {"d": 30}], "timestamp": [{}], "time_interval": [{}],
     "debounce": [{"d": 10}, {"d": 20}, {"d": 15}], "throttle_first": [{"d": 10}, {"d": 20}, {"d": 25}], "sample": [{"d": 20}, {"d": 15}],
-    "take_with_time": [{"d": 20}, {"d": 25}, {"d": 0}], "skip_with_time": [{"d": 20}, {"d": 25}, {"d": 0}],
-    "take_until_with_time": [{"d": 20, "abs": False}, {"d": 20, "abs": True}, {"d": 35, "abs": True}],
-    "skip_until_with_time": [{"d": 20, "abs": False}, {"d": 20, "abs": True}, {"d": 35, "abs": True}],
+    "take_with_time": [{"d": 20}, {"d": 25}, {"d": 0}, {"d": 20, "cold": True}], "skip_with_time": [{"d": 20}, {"d": 25}, {"d": 0}, {"d": 20, "cold": True}],
+    "take_until_with_time": [{"d": 20, "abs": False}, {"d": 20, "abs": True}, {"d": 35, "abs": True}, {"d": 20, "abs": False, "cold": True}, {"d": 20, "abs": True, "cold": True}],
+    "skip_until_with_time": [{"d": 20, "abs": False}, {"d": 20, "abs": True}, {"d": 35, "abs": True}, {"d": 20, "abs": False, "cold": True}, {"d": 20, "abs": True, "cold": True}],
     "take_last_with_time": [{"d": 10}, {"d": 20}, {"d": 30}], "skip_last_with_time": [{"d": 10}, {"d": 20}, {"d": 30}],
     "timeout": [{"d": 15}, {"d": 25}],
 }
